@@ -22,7 +22,7 @@ ASSUMPTIONS = ["matcher contract MC1-MC6 for the stub matcher (the real matcher 
 
 def bounds(tier):
     return {"quick": "z3: 42 states x 2^14 vectors; CrossHair: every prefix x K=1 (collecting), K=1 stop mode on every 3rd, cap prefixes x K=2; tag lines <= 3 symbolic chars",
-            "thorough": "CrossHair: every prefix x K=2 in both modes, cap prefixes x K=3; tag lines <= 4 symbolic chars"}[tier]
+            "thorough": "CrossHair: every prefix x K=2 (stop mode on every 3rd), cap prefixes x K=3; tag lines <= 4 symbolic chars"}[tier]
 
 
 def solver_part(tier):
@@ -81,7 +81,7 @@ def conditions(tier):
     else:
         cs = _p.pdrv_conditions(k_all=2, k_tags=2, stop_too=True, extra=caps)
         more = _p.pdrv_conditions(k_all=2, k_tags=0, stop_too=False)
-        for c in more:
+        for c in more[::3]:
             cs.append(Cond(c.module, c.function, dict(c.params, stop=True), T=c.T, label=c.label.replace("[", "[stop,", 1)))
     n = 3 if q else 4
     for head in ("@", "@a"):
